@@ -4,9 +4,11 @@
   `alpha` in `(0,1)`, the exact probability that the p-value reported by the literal model of
   `alpha_mart` / `betting_mart` after some number `<= n` of draws is at most `alpha` does not exceed `alpha`.
 
-  NOT proved (declared partial in DESIGN.md): the statement for arbitrary (not finitely supported) laws
-  on `[0,u]`, which needs a measure-theoretic Ville inequality; the finitely supported case is what an
-  executable model can carry.
+  Weights in an arbitrary ordered field, in particular REAL probabilities: `C01IIDReal.lean` (same theorems,
+  `hitIIDK`); the doubles in `[0,u]` are finitely many rationals, so that covers every law on the inputs.
+
+  NOT proved (declared partial in DESIGN.md): the statement for laws on a continuum of real values (not
+  finitely supported), which needs a measure-theoretic Ville inequality and which no float input realises.
 -/
 import Shangrla.Props.C01
 import Shangrla.Lemmas.VilleIID
